@@ -35,6 +35,9 @@ type Result struct {
 	// SNBT readers that accept them (a decimal written ".5" or "1e3f", the escapes \n \t \r \b \f): a parser
 	// may reject such a text, but if it accepts it, this is the value.
 	IfAccepted *refnbt.Value
+	// IfAcceptedAlt is the second admissible value when the text contains integer literals with leading zeros
+	// (nil otherwise, or equal in effect to IfAccepted).
+	IfAcceptedAlt *refnbt.Value
 }
 
 type parser struct {
@@ -44,6 +47,9 @@ type parser struct {
 	nLen    int // number of lenient events (the reason string keeps only the first)
 	nTyped  int // how many of them still pin the value down if the text is accepted
 	depth   int
+	// zerosAsString selects the second of the two readings of integer literals with leading zeros ("0100L"):
+	// false = the decimal number (what lenient number parsers give), true = a string (what vanilla gives)
+	zerosAsString bool
 }
 
 type rejectErr struct{ reason string }
@@ -83,7 +89,17 @@ func (p *parser) peek() (byte, bool) {
 
 // Parse classifies text and, when it lies in the agreement grammar, returns the tree it denotes.
 func Parse(text []byte) (res Result) {
-	p := &parser{b: text}
+	res = parse(text, false)
+	if res.Status == Lenient && res.IfAccepted != nil {
+		if alt := parse(text, true); alt.Status == Lenient && alt.IfAccepted != nil {
+			res.IfAcceptedAlt = alt.IfAccepted
+		}
+	}
+	return res
+}
+
+func parse(text []byte, zerosAsString bool) (res Result) {
+	p := &parser{b: text, zerosAsString: zerosAsString}
 	defer func() {
 		if r := recover(); r != nil {
 			if re, ok := r.(rejectErr); ok {
@@ -264,6 +280,8 @@ func Literal(w string) (v *refnbt.Value, ok bool) {
 	return refnbt.St(w), true
 }
 
+var reLeadingZeros = regexp.MustCompile(`^([+-]?)(0[0-9]+)([bBsSlLiI]?)$`)
+
 var (
 	reMojFloat  = regexp.MustCompile(`^([+-]?(?:(?:0|[1-9][0-9]*)[.]?|(?:0|[1-9][0-9]*)?[.][0-9]+)(?:[eE][+-]?[0-9]+)?)([fFdD])$`)
 	reMojDouble = regexp.MustCompile(`^[+-]?(?:(?:0|[1-9][0-9]*)[.]|(?:0|[1-9][0-9]*)?[.][0-9]+)(?:[eE][+-]?[0-9]+)?$`)
@@ -300,6 +318,21 @@ func (p *parser) literal(w string) *refnbt.Value {
 		if n := mojangNumber(w); n != nil {
 			p.lenientButTyped("decimal form outside the agreement grammar: " + trunc(w))
 			return n
+		}
+		if m := reLeadingZeros.FindStringSubmatch(w); m != nil {
+			// "0100L", "-010b", "007": a decimal number for parsers that take leading zeros, a string for vanilla; never octal
+			if p.zerosAsString {
+				p.lenientButTyped("integer literal with leading zeros: " + trunc(w))
+				return refnbt.St(w)
+			}
+			digits := strings.TrimLeft(m[2], "0")
+			if digits == "" {
+				digits = "0"
+			}
+			if v, ok := Literal(m[1] + digits + m[3]); ok && v.Tag != refnbt.String {
+				p.lenientButTyped("integer literal with leading zeros: " + trunc(w))
+				return v
+			}
 		}
 		p.lenientBecause("literal outside the agreement grammar: " + trunc(w))
 		return refnbt.St(w)
